@@ -258,7 +258,9 @@ pub fn run_lw(cfg: &LwCfg, si: &ScriptInfo, env: &LwEnv, ch: &mut Chooser, mut i
             let stepped = !((skip == 1 && side == 1) || (skip == 2 && side == 0)) && round % cfg.step_every[side].max(1) == 0;
             // application operations scheduled for this round happen before the step
             let mut extra_flush = 0;
-            for (i, op) in si.by_round.get(&(round, side)).map(|v| v.as_slice()).unwrap_or(&[]).iter().map(|&i| (i, &si.ops[i])) {
+            // (short scripts: a scan is cheaper than hashing; long ones: the index)
+            let scan: Vec<usize>; let due: &[usize] = if si.ops.len() <= 48 { scan = si.ops.iter().enumerate().filter(|(_, o)| o.round == round && o.side == side).map(|(i, _)| i).collect(); &scan } else { si.by_round.get(&(round, side)).map(|v| v.as_slice()).unwrap_or(&[]) };
+            for (i, op) in due.iter().map(|&i| (i, &si.ops[i])) {
                 match op.kind {
                     OpKind::Send { ch: c, mode, size } => {
                         let (cc, idx) = si.op_sub[i].unwrap();
@@ -406,6 +408,26 @@ pub fn oracle_c01(si: &ScriptInfo, tr: &Trace) -> Option<Violation> {
 
 /// C02 safety: a packet submitted after a Reliable packet on the same channel is never delivered before it.
 pub fn oracle_c02_safety(si: &ScriptInfo, tr: &Trace) -> Option<Violation> {
+    if si.ops.len() <= 48 {
+        // short scripts: the direct formulation
+        for side in 0..2 {
+            let sender = 1 - side;
+            let mut delivered: Vec<usize> = Vec::new();
+            for d in tr.dels.iter().filter(|d| d.side == side) {
+                if let Some(op) = d.sub {
+                    let (chn, idx) = si.op_sub[op].unwrap();
+                    for j in 0..idx {
+                        let opj = si.by_tag[sender][&(chn, j)];
+                        if let OpKind::Send { mode: SendMode::Reliable, .. } = si.ops[opj].kind {
+                            if !delivered.contains(&opj) { return Some(viol("C02.skip", "C02.skip".into(), format!("side {} received ch{} #{} (round {}) although Reliable ch{} #{} had not been delivered", side, chn, idx, d.round, chn, j))); }
+                        }
+                    }
+                    delivered.push(op);
+                }
+            }
+        }
+        return None;
+    }
     for side in 0..2 { // receiver side
         let sender = 1 - side;
         // per channel: the submission indices of its Reliable packets in order, and how many of the oldest of them are delivered
